@@ -16,6 +16,7 @@ type G struct {
 	what    string
 	obj     interface{} // synchronisation object of the pending operation (nil = conflicts with everything)
 	read    bool        // the pending operation only reads obj (two reads commute)
+	vc      vclock
 	send    bool
 }
 
@@ -304,6 +305,11 @@ func (i *Interp) spawn(fn value, args []value) {
 	g := &G{id: len(cs.gs), resume: make(chan struct{}, 1), what: "start"}
 	cs.wg.Add(1)
 	cs.gs = append(cs.gs, g)
+	if i.rs != nil && i.rs.on {
+		p := cs.cur
+		g.vc = append(vclock{}, p.vc...).with(g.id, 1)
+		p.vc = p.vc.with(p.id, p.vc.get(p.id)+1)
+	}
 	go func() {
 		defer cs.wg.Done()
 		<-g.resume
@@ -412,6 +418,9 @@ func (i *Interp) ctxMethod(c *ctxObj, name string) value {
 		return &nativeFn{"ctx.Err", func(i *Interp, _ *frame, _ []value) value {
 			i.yieldR("ctx.Err", nil, c)
 			if c.done {
+				for a := c; a != nil; a = a.parent {
+					i.vcAcquire(a)
+				}
 				if c.deadline {
 					return i.ctxErrValue("DeadlineExceeded")
 				}
@@ -438,9 +447,13 @@ func (i *Interp) recv(ch *chanV) value {
 	if ch.ctx != nil {
 		// receive from a context's Done channel: a read of the context tree's state
 		i.yieldR("ctx.Done", func() bool { return ch.closed }, ch.ctx)
+		for a := ch.ctx; a != nil; a = a.parent {
+			i.vcAcquire(a)
+		}
 		return nil
 	}
 	i.yield("recv", func() bool { return len(ch.buf) > 0 || ch.closed }, ch)
+	i.vcAcquire(ch)
 	if len(ch.buf) > 0 {
 		v := ch.buf[0]
 		ch.buf = ch.buf[1:]
@@ -451,6 +464,7 @@ func (i *Interp) recv(ch *chanV) value {
 
 func (i *Interp) send(ch *chanV, v value) {
 	i.yield("send", func() bool { return len(ch.buf) < ch.cap }, ch)
+	i.vcRelease(ch)
 	ch.buf = append(ch.buf, v)
 }
 
@@ -463,6 +477,7 @@ func init() {
 			c := newCtx(ctxOf(a[0]))
 			cancel := &nativeFn{"cancel", func(i *Interp, _ *frame, args []value) value {
 				i.yield("cancel", nil, c)
+				i.vcRelease(c)
 				var cause value
 				if causeArg && len(args) > 0 {
 					cause = args[0]
@@ -486,11 +501,13 @@ func init() {
 			}
 			i.yield("Lock", func() bool { return !m.locked }, m)
 			m.locked = true
+			i.vcAcquire(m)
 			return nil
 		},
 		"(*sync.Mutex).Unlock": func(i *Interp, _ *frame, _ *ssa.Function, a []value) value {
 			p := a[0].(*value)
 			i.yield("Unlock", nil, i.cs.mutexes[p])
+			i.vcRelease(i.cs.mutexes[p])
 			i.cs.mutexes[p].locked = false
 			return nil
 		},
@@ -504,9 +521,11 @@ func init() {
 				fault("RWMutex.Lock would block inside an atomic step (writer=%v readers=%d)", st.writer, st.readers)
 			}
 			st.writer = true
+			i.vcAcquire(st)
 			return nil
 		},
 		"(*sync.RWMutex).Unlock": func(i *Interp, _ *frame, _ *ssa.Function, a []value) value {
+			i.vcRelease(i.rw(a[0]))
 			i.rw(a[0]).writer = false
 			return nil
 		},
@@ -516,9 +535,11 @@ func init() {
 				fault("RWMutex.RLock would block inside an atomic step")
 			}
 			st.readers++
+			i.vcAcquire(st)
 			return nil
 		},
 		"(*sync.RWMutex).RUnlock": func(i *Interp, _ *frame, _ *ssa.Function, a []value) value {
+			i.vcRelease(i.rw(a[0]))
 			i.rw(a[0]).readers--
 			return nil
 		},
@@ -546,6 +567,7 @@ func init() {
 		"(*sync.WaitGroup).Done": func(i *Interp, _ *frame, _ *ssa.Function, a []value) value {
 			p := a[0].(*value)
 			i.yield("wg.Done", nil, i.cs.wgs[p])
+			i.vcRelease(i.cs.wgs[p])
 			i.cs.wgs[p].n--
 			return nil
 		},
@@ -556,6 +578,7 @@ func init() {
 				return nil
 			}
 			i.yield("wg.Wait", func() bool { return w.n == 0 }, w)
+			i.vcAcquire(w)
 			return nil
 		},
 		"(*sync.Once).Do": func(i *Interp, caller *frame, _ *ssa.Function, a []value) value {
@@ -567,16 +590,20 @@ func init() {
 			}
 			i.yield("once.Do", func() bool { return !o.running }, o)
 			if o.done {
+				i.vcAcquire(o)
 				return nil
 			}
 			o.running = true
 			i.call(caller, 0, a[1], nil)
 			o.running, o.done = false, true
+			i.vcRelease(o)
 			return nil
 		},
 		"sync/atomic.AddInt32": func(i *Interp, _ *frame, _ *ssa.Function, a []value) value {
 			p := a[0].(*value)
 			i.yield("atomic", nil, p)
+			i.vcAcquire(p)
+			i.vcRelease(p)
 			n := BVBin("bvadd", (*p).(*Term), a[1].(*Term))
 			*p = n
 			return n
